@@ -1,5 +1,6 @@
 (* Property C15 - the dynamic threshold tracks the background mean within its configured
    bounds. *)
+From Coq Require Import String.
 From Coq Require Import List ZArith Bool.
 From TR Require Import model.Ring model.Detector model.DetSpec proofs.DetC15 proofs.FloatFacts.
 (* constants and wiring read from the Go sources on every run *)
@@ -75,3 +76,111 @@ Theorem C15_source_tie_u16 : forall c evs,
     Forall (event_ok c) evs -> weights_bounded_from c (dinit c) evs = true ->
     map (dproj c) (src_dtrace c evs) = model_dtrace c (dinit c) evs.
 Proof. exact tie_detector_u16. Qed.
+
+(* ---- source tie: where the motion thresholds come from, as the Go sources are now ----
+   coq/translated/ConfMotion.v (motion/motionconfig.go: NewConfig, validateConfig) and Config.LoadMotionConfig in
+   coq/translated/Config.v (cmd/thermal-recorder/config.go), regenerated on every run; model/ConfExt.v is the go-config
+   library as far as they use it (the library's defaults PER CAMERA MODEL are a parameter: [d_motion L model]);
+   proofs/TieConf.v, axiom-free.  For every library, world (0 < w_next), Config, camera model: *)
+From TR Require Import translated.ConfMotion translated.ConfRecorder translated.Config model.ConfExt proofs.TieConf.
+
+(* motion.validateConfig is EMPTY: nil, no effect, for whatever it is given.  In particular nothing relates
+   temp-thresh-min to temp-thresh-max: a file with both set and max < min is accepted (confirmed on the real code),
+   which is exactly the hypothesis "ordered when both are set" of C15_background_and_threshold above - the
+   configuration code does not establish it. *)
+Theorem C15_source_config_validate_is_empty : forall (W : Type) (ext : string -> list GoSem.arg -> W -> Z * W) (t : Z) (w : W),
+  ConfMotion_fn_validateConfig ext t w = GoSem.Ok 0 w.
+Proof. exact tie_validateConfig. Qed.
+
+(* motion.NewConfig(conf, model): the defaults of THAT model, then the thermal-motion keys of the file over them;
+   a section that fails to decode: that error and nil *)
+Theorem C15_source_config_motion_NewConfig : forall (L : clib) (conf model : Z) (f : cfile) (w : ConfExt.cworld),
+  w_heap w conf = OConf f ->
+  conf < w_next w ->
+  cpost (ConfMotion_fn_NewConfig (ConfExt.cext L) conf model w)
+    (fun (r : Z * Z) (w' : ConfExt.cworld) =>
+     let e := fault_at 0 (w_faults w) in
+     extends w w' (EUnmarshal conf SMotion (w_next w) e :: nil) /\
+     w_reads w' = w_reads w /\
+     w_faults w' = tl (w_faults w) /\
+     w_next w' = w_next w + 1 /\
+     (if e =? 0 then r = (w_next w, 0) /\ w_heap w' (w_next w) = OSect SMotion (motion_vals L model f) else r = (0, e))).
+Proof. exact tie_motion_NewConfig. Qed.
+
+(* every motion key at once (dynamic-threshold, temp-thresh, temp-thresh-min / -max, delta-thresh, count-thresh,
+   frame-compare-gap, use-one-diff-only, trigger-frames, warmer-only, edge-pixels, verbose - k ranges over all
+   fields): the file's key when the section and the key are present, the GIVEN model's default otherwise *)
+Theorem C15_source_config_motion_keys : forall (L : clib) (model : Z) (f : cfile) (k : string),
+  motion_vals L model f k =
+  match f SMotion with
+  | Some p => match p k with Some v => v | None => d_motion L model k end
+  | None => d_motion L model k
+  end.
+Proof. exact motion_vals_eq. Qed.
+
+(* LoadMotionConfig(model), whole: a fresh goconfig.New of c.ConfigDir; on success c.Motion - and nothing else of c -
+   is replaced by [motion_vals L model f], f the file AS IT IS THEN; when goconfig.New or the decoding of the
+   thermal-motion section fails the error is returned and c is returned as it was *)
+Theorem C15_source_config_load : forall (L : clib) (c : Config) (model : Z) (w : ConfExt.cworld),
+  0 < w_next w ->
+  cpost (src_load L c model w)
+    (fun (r : Config * Z) (w' : ConfExt.cworld) =>
+     exists evs : list ConfExt.cev,
+       extends w w' evs /\ bad_calls evs = nil /\ w_reads w' = tl (w_reads w) /\
+       (exists tok err : Z, hd_error evs = Some (ENew (Config_ConfigDir c) tok err)) /\
+       match load_outcome (w_reads w) (w_faults w) with
+       | PNewErr e => r = (c, e) /\ e <> 0 /\ sections_read evs = nil /\ w_faults w' = w_faults w
+       | PDecodeErr _ e => r = (c, e) /\ e <> 0 /\ sections_read evs = SMotion :: nil /\ w_faults w' = tl (w_faults w)
+       | POk =>
+           snd r = 0 /\ sections_read evs = SMotion :: nil /\ w_faults w' = tl (w_faults w) /\
+           (exists tok : Z,
+              fst r = Config_set_Motion tok c /\
+              w_next w <= tok < w_next w' /\
+              match w_reads w with
+              | inr f :: _ => w_heap w' tok = OSect SMotion (motion_vals L model f)
+              | _ => False
+              end)
+       | _ => False
+       end).
+Proof. exact tie_LoadMotionConfig. Qed.
+
+(* a camera that reconnects as another model: after a second LoadMotionConfig every motion field is the key of the
+   file as it is then or the SECOND model's default - m1 and f1 do not occur in what is left *)
+Theorem C15_source_config_reload : forall (L : clib) (c : Config) (m1 m2 : Z) (f1 f2 : cfile) (rest : list (Z + cfile)) (w : ConfExt.cworld),
+  0 < w_next w ->
+  w_reads w = inr f1 :: inr f2 :: rest ->
+  fault_at 0 (w_faults w) = 0 ->
+  fault_at 1 (w_faults w) = 0 ->
+  cpost (GoSem.bind (src_load L c m1) (fun r : Config * Z => src_load L (fst r) m2) w)
+    (fun (r : Config * Z) (w' : ConfExt.cworld) =>
+     snd r = 0 /\
+     fst r = Config_set_Motion (Config_Motion (fst r)) c /\
+     w_heap w' (Config_Motion (fst r)) = OSect SMotion (motion_vals L m2 f2) /\
+     (forall k : string,
+      field_of w' (Config_Motion (fst r)) k =
+      match f2 SMotion with
+      | Some p => match p k with Some v => v | None => d_motion L m2 k end
+      | None => d_motion L m2 k
+      end)).
+Proof. exact tie_Load_twice. Qed.
+
+(* FINDING, second half (main.go:216 drops LoadMotionConfig's result): when the reload FAILS the first model's motion
+   section stays - a lepton3 that follows a lepton3.5 on the same process is then judged with delta-thresh 200 and
+   temp-thresh 28000 (reproduced on the real code) *)
+Theorem C15_source_config_reload_failed : forall (L : clib) (c : Config) (m1 m2 : Z) (f1 : cfile) (rest : list (Z + cfile)) (w : ConfExt.cworld),
+  0 < w_next w ->
+  w_reads w = inr f1 :: rest ->
+  fault_at 0 (w_faults w) = 0 ->
+  load_outcome rest (tl (w_faults w)) <> POk ->
+  cpost (GoSem.bind (src_load L c m1) (fun r : Config * Z => src_load L (fst r) m2) w)
+    (fun (r : Config * Z) (w' : ConfExt.cworld) =>
+     snd r <> 0 /\ w_heap w' (Config_Motion (fst r)) = OSect SMotion (motion_vals L m1 f1)).
+Proof. exact tie_Load_then_failed_Load. Qed.
+
+(* evaluated with the library's numbers: lepton3.5 then lepton3, the thermal-motion section gone in between *)
+Example C15_source_config_example :
+  observe (GoSem.bind (GoSem.bind (src_parse EXL 7) (fun r => src_load EXL (fst r) MODEL35)) (fun r => src_load EXL (fst r) MODEL3)
+                (w_init [inr ex_file; inr ex_file; inr ex_file2] [])) =
+  Some (0, [42; 103; 102; 101; 200; 20; 600; 5; 1; -36; 1726362; -36; 0; 1; 600000000000; 2900; 50; 2],
+        [SRecorder; SLocation; SWindows; SThrottler; SLocation; SRecorder; SLepton; SDevice; SMotion; SMotion], []).
+Proof. exact ex_reload. Qed.
